@@ -137,7 +137,7 @@ func TestC17(t *testing.T) {
 		WString: 5, WInteger: 4, WNumber: 4, WBoolean: 2, WArray: 2, WEnum: 3, WRef: 3, WObject: 3,
 		DefWeights:  map[string]int{"enum": 2, "object": 2, "string": 2, "integer": 2, "number": 1},
 		PConstraint: 0.5, PNullable: 0.2, PRequired: 0.5, PFormat: 0.15,
-		Excluded: c.ExcludedMap(), Sat: docs.Satisfiable, FractionalIntBounds: true}
+		Excluded: c.ExcludedMap(), Sat: docs.Satisfiable, FractionalIntBounds: true, UnmappedFormats: true}
 	// only the JSON/YAML relation is judged here, so non-integral bounds on integers (whose
 	// absolute treatment is an open C05 finding) are part of the domain
 	prof.Avoid = func(sw string) bool { return sw != "ints.fractional_bounds" && c.Avoid(sw) }
@@ -244,6 +244,31 @@ func TestC17(t *testing.T) {
 				}
 			}
 			addDoc(v, "valid", "", triggers)
+			if i == 0 {
+				// format probes: texts at the edge of each format's notation, at every string position
+				// that states a format (mapped to a Go type or not). Nothing says which of them are valid;
+				// both decoders must say the same.
+				np := 0
+				for _, p := range docs.Positions(f.Root, v) {
+					if p.Val.K != jv.Str || p.Node == nil || p.Node.Kind != model.KString || np >= 24 {
+						continue
+					}
+					fm := p.Node.Format
+					for _, kv := range p.Node.Noise {
+						if kv.K == "format" && kv.V.K == jv.Str {
+							fm = kv.V.S
+						}
+					}
+					probes := formatProbes[fm]
+					if fm == "" || len(probes) == 0 {
+						continue
+					}
+					for _, pr := range rapid.SliceOfNDistinct(rapid.SampledFrom(probes), 1, 3, func(s string) string { return s }).Draw(rt, "formatprobes") {
+						addDoc(p.Replace(jv.StrV(pr)), "formatprobe:"+fm, "", true)
+						np++
+					}
+				}
+			}
 			muts, _ := docs.Mutants(rt, f.Root, v, kinds, &oo)
 			n := 0
 			for k := range muts {
@@ -302,6 +327,23 @@ func TestC17(t *testing.T) {
 			return
 		}
 	}
+}
+
+// formatProbes: per format, texts at the edge of its notation.
+var formatProbes = map[string][]string{
+	"time":         {"08:30:00Z", "18:00:00+02:00", "8:30:00", "08:30", "08:30:00.5", "24:00:00", "08:30:00"},
+	"date":         {"2024-02-30", "2024-2-3", "2024-02-29T00:00:00Z", "20240229", "2023-02-29", "2024-02-29"},
+	"date-time":    {"2024-02-29T10:00:00", "2024-02-29 10:00:00Z", "2024-02-29T10:00:00+02:00", "2024-02-29t10:00:00z", "2024-02-29T10:00:00.123456789Z", "2024-02-29T24:00:00Z"},
+	"ipv4":         {"1.2.3.04", "1.2.3", "::ffff:1.2.3.4", "1.2.3.4/24", "256.1.1.1", "1.2.3.4"},
+	"ipv6":         {"::1%eth0", "1.2.3.4", "::g", "[::1]", "2001:DB8::1", "::ffff:1.2.3.4"},
+	"duration":     {"30s", "1m30s", "P1D", "250ms", "PT1H", "1.5h", "-5m"},
+	"email":        {"a@b", "not an email", "30s"},
+	"uri":          {"http://x", "::", "1m30s"},
+	"uuid":         {"00000000-0000-0000-0000-000000000000", "zz", "12h"},
+	"hostname":     {"example.com", "-x-", "3h"},
+	"regex":        {"^a+$", "(", "5s"},
+	"json-pointer": {"/a/b", "a", "2h45m"},
+	"x-custom":     {"anything", "7s"},
 }
 
 func allStrings(n *model.Node) bool {
